@@ -474,6 +474,23 @@ pub mod sched {
 
     thread_local! {
         static TID: Cell<Option<usize>> = const { Cell::new(None) };
+        static READER: Cell<bool> = const { Cell::new(false) };
+    }
+
+    /// Marks the calling (registered) thread as a reader: only readers stop at
+    /// the `AS_PTR` point. (Text comparisons during a table lookup also go
+    /// through `as_ptr`; their number depends on the hash seed of the table,
+    /// so they must not be scheduling points of interning threads.)
+    pub fn set_reader(on: bool) {
+        READER.with(|r| r.set(on));
+    }
+
+    /// The scheduling point inside `Atom::as_ptr`.
+    #[inline]
+    pub fn reader_point() {
+        if READER.with(|r| r.get()) {
+            point(point::AS_PTR);
+        }
     }
 
     /// Starts a fresh execution with `n` threads (controller side).
